@@ -112,6 +112,11 @@ def aexp_term(e: ast.expr) -> str:
         return f"(ACall {cstr(e.func.id)} {clist(args, aexp_term)})"
     if isinstance(e, ast.Attribute):
         return f"(AAttr {aexp_term(e.value)} {cstr(e.attr)})"
+    if isinstance(e, ast.Subscript) and isinstance(e.slice, ast.Constant) and isinstance(e.slice.value, int) and e.slice.value >= 0:
+        return f"(AIndex {aexp_term(e.value)} {cnat(e.slice.value)})"
+    if (isinstance(e, ast.Call) and isinstance(e.func, ast.Attribute) and e.func.attr == "join"
+            and isinstance(e.func.value, ast.Constant) and isinstance(e.func.value.value, str) and len(e.args) == 1):
+        return f"(AJoin {cstr(e.func.value.value)} {aexp_term(e.args[0])})"
     return "AUnknown"
 
 
